@@ -139,7 +139,7 @@ int main(int argc, char** argv) {
     Ctx ctx;
     ctx.parse(argc, argv, "C15");
     const bool T = ctx.thorough();
-    const uint32_t N = T ? (1u << 25) : (1u << 20);
+    const uint32_t N = T ? (1u << 26) : (1u << 20);
     build_sieve(std::max<uint32_t>(N, 1u << 20) + 70000);
     // oracle self-check: the two independent references must agree where both apply
     for (uint32_t n = 0; n <= SIEVE_N; n += (n < 70000 ? 1 : 37)) {
@@ -371,7 +371,7 @@ int main(int argc, char** argv) {
             uint64_t lo, hi;
         };
         std::vector<Rng> rs;
-        rs.push_back({0, T ? 65537u : 8193u});
+        rs.push_back({0, T ? 262145u : 8193u});
         const uint64_t W = T ? 256 : 48;
         for (uint64_t cen : {1ull << 16, 1ull << 20, 1ull << 24, 1ull << 31, 65521ull * 65521ull})
             rs.push_back({cen - W, cen + W});
